@@ -4,7 +4,37 @@ use urandom::rng::{Mock, SplitMix64, Wyrand, Xoshiro256};
 use urandom::{Random, Rng};
 
 /// One op of a history, executed on the real generator.
+
+/// fills through the TYPED entry points inside a history: `zfill:k` = `fill_bytes` over k zero-sized elements, `zrb` = `random_bytes::<()>()`
+/// (both write nothing and must draw nothing), `tfill:k` = `fill_bytes` over k `u32` elements (4k bytes, shown little-endian per element)
+fn typed_fill_op<G: Rng + ?Sized>(r: &mut Random<G>, op: &str) -> Option<R<String>> {
+	if op == "zrb" {
+		let _: () = r.random_bytes::<()>();
+		let _: [u64; 0] = r.random_bytes::<[u64; 0]>();
+		return Some(Ok("b:".to_string()));
+	}
+	if let Some(k) = op.strip_prefix("zfill:") {
+		let k: usize = match k.parse() { Ok(k) => k, Err(_) => return Some(Err(Bad)) };
+		let mut a = vec![[0u8; 0]; k];
+		r.fill_bytes(&mut a[..]);
+		let mut b = vec![(); k];
+		r.fill_bytes(&mut b[..]);
+		return Some(Ok("b:".to_string()));
+	}
+	if let Some(k) = op.strip_prefix("tfill:") {
+		let k: usize = match k.parse() { Ok(k) => k, Err(_) => return Some(Err(Bad)) };
+		let mut a = vec![0u32; k];
+		r.fill_bytes(&mut a[..]);
+		let bytes: Vec<u8> = a.iter().flat_map(|w| w.to_ne_bytes()).collect();
+		return Some(Ok(format!("b:{}", hex(&bytes))));
+	}
+	None
+}
+
 pub fn run_op<G: Rng + Clone>(r: &mut Random<G>, op: &str) -> R<String> {
+	if let Some(res) = typed_fill_op(r, op) {
+		return res;
+	}
 	Ok(match op {
 		"u32" => r.next_u32().to_string(),
 		"u64" => r.next_u64().to_string(),
@@ -55,6 +85,9 @@ pub fn run_op<G: Rng + Clone>(r: &mut Random<G>, op: &str) -> R<String> {
 
 /// the ops that need no `Clone` (generators such as `System<N>`)
 pub fn run_op_noclone<G: Rng>(r: &mut Random<G>, op: &str) -> R<String> {
+	if let Some(res) = typed_fill_op(r, op) {
+		return res;
+	}
 	Ok(match op {
 		"u32" => r.next_u32().to_string(),
 		"u64" => r.next_u64().to_string(),
